@@ -104,6 +104,8 @@ def L(n):
 
 
 IDOCS = [
+    lambda a, t: '$\\left\\lvert ' + a + '\\right\\| ' + t + '\\right\\rvert\\left\\langle x\\right\\rangle\\right\\}$',
+    lambda a, t: '$' + a + '\\cup b\\in c' + t + '\\infty\\cap$\\noindent ' + a,
     lambda a, t: '\\textbf ' + a + t + '\\label ' + a + '\\section[o] s',
     lambda a, t: '\\a{' + a + '}' + t + '\\b[' + a + ']{y}',
     lambda a, t: '\\begin{e}[' + a + ']\\c{' + t + '}$' + a + '$\\end{e}',
